@@ -309,8 +309,8 @@ impl Restorer {
             Some(header.mode()?)
         };
 
-        let mtime = header.mtime()?.try_into().map_err(|e| map_err(
-            header, "file modification time", e))?;
+        // The header stores `mtime as u64`, so times before 1970 come back as huge values: invert the cast
+        let mtime = header.mtime()? as i64;
 
         Ok(FileMetadata {owner, mode, mtime})
     }
